@@ -96,3 +96,15 @@ CLAIMS["C19"] = {
     "note": "Trusted: core/crypto Sign/Verify (C08), synctest virtual time, the 5 min challenge TTL constant. Not asserted: token/hostname binding, opaque-host equality when the signature covers the request Host, completeness "
             "(honest material accepted is a harness precondition). Handler panics (one found for oversized public keys) report no identity and are counted, not judged.",
 }
+
+CLAIMS["C06"] = {
+    "technique": "schedule-generating property-based testing (rapid) of a real swarm with scripted connections on virtual time; history invariants over recorded callbacks and events",
+    "design_ref": "DESIGN.md section 3, C06",
+    "text": "A real swarm in a synctest bubble admits 1-5 generated connections (two peers, direct/limited, inbound through a scripted listener or outbound through scripted dials) and removes them locally "
+            "(Close/CloseWithError/ClosePeer), remotely or never, before/at/inside/after the window of their Connected callbacks; two recording notifiees return at once, block for a generated virtual time, close the "
+            "connection from inside Connected or call Close from inside Disconnected; inbound streams and an optional Swarm.Close land at generated instants (same-instant events race for real). At quiescence and after "
+            "Swarm.Close the recorded history must satisfy: Connected exactly once per notifiee and admitted connection, Disconnected exactly once after close and never before every Connected returned, no stream handler "
+            "before Connected returned, no notification callback running after Swarm.Close returned, connectedness events never repeat a state (except NotConnected), the last event equals Connectedness(), which equals what "
+            "the open connections imply, and ConnsToPeer lists exactly the admitted open connections. Exploration.",
+    "note": "Scripted transport connections stand in for real ones; stream handlers are by design not waited for by Swarm.Close; interleavings inside one virtual instant are sampled by repetition.",
+}
